@@ -25,7 +25,7 @@ const supervisorFallbackCloseTimeout = 10 * time.Second
 // never names a raw event constant — transport-detected transitions enter through the named
 // TransportRuntime methods (TCPUp/TCPDown/CommitSelected/SelectLost) — so this type stays
 // unexported (spec §5.3/§5.4).
-type fsmEvent uint8
+type fsmEvent uint32
 
 const (
 	evTCPUp          fsmEvent = iota // TCP came up: NotConnected -> NotSelected
@@ -35,6 +35,21 @@ const (
 	evClose                          // voluntary Close: any state -> NotConnected
 	evT7Timeout                      // T7 NOT-SELECTED dwell expired: NotSelected -> NotConnected (no-op otherwise)
 )
+
+// Event stamps. An asynchronously raised event waits in the queue while synchronous commits go on
+// moving the state word, so by the time step sees it the situation that raised it may be over. inject
+// therefore stamps such an event with the identity of that situation (the low evKindBits carry the
+// event kind, evStamped marks a stamped event, the bits above carry the stamp), and step abandons a
+// stamped event whose situation has passed. An event handed to step without a stamp is always current.
+const (
+	evKindBits            = 8
+	evKindMask   fsmEvent = 1<<evKindBits - 1
+	evStamped    fsmEvent = 1 << evKindBits
+	evStampShift          = evKindBits + 1
+)
+
+// stampOf packs counter value n into the stamp bits (truncated to the bits available).
+func stampOf(n uint32) fsmEvent { return fsmEvent(n) << evStampShift >> evStampShift }
 
 // stateChange is one logical E37 transition, reported to the notifier as (prev -> next).
 type stateChange struct {
@@ -60,6 +75,7 @@ type supervisor struct {
 	state         atomic.Uint32              // stores a ConnState; lock-free hot-path reads + State()
 	lastReacted   ConnState                  // run-owned; dedups reactions/notify (H3; tolerates the H2 pre-commit)
 	closed        bool                       // run-owned; LATCHED true once evClose is processed (I2) — later events ignored
+	gens          atomic.Uint32              // TCP generations committed so far (CommitConnected); stamps evDisconnect
 	events        chan fsmEvent              // SOLE reader is run(); GUARANTEED command queue (inject blocks, never drops)
 	notify        chan stateChange           // SOLE sender is run(); NON-BLOCKING drop-OLDEST coalescing
 	droppedNotify atomic.Uint64              // count of coalesced/dropped notifications; surfaced via a rate-limited Warn (M4)
@@ -200,6 +216,9 @@ func (s *supervisor) State() ConnState {
 // when not NotConnected is a no-op returning false (TCPUp is driven once per generation, and the
 // only transition out of NotConnected is evTCPUp itself, so the CAS always succeeds in practice).
 func (s *supervisor) CommitConnected() (committed bool) {
+	// A new TCP generation: bump the generation count BEFORE the state word shows it, so a TCPDown of
+	// the previous generation that is still queued is recognized as stale however step interleaves.
+	s.gens.Add(1)
 	if s.state.CompareAndSwap(uint32(NotConnectedState), uint32(NotSelectedState)) {
 		s.inject(evTCPUp)
 
@@ -287,6 +306,15 @@ func (s *supervisor) step(ev fsmEvent) {
 	// ever terminal (Close / failed-Open rollback, both under lifeMu), so latching cannot drop a
 	// legitimate later transition — the generation is ending.
 	if s.closed {
+		return
+	}
+
+	stamped, stamp := ev&evStamped != 0, ev>>evStampShift
+	ev &= evKindMask
+	if stamped && ev == evDisconnect && stamp != stampOf(s.gens.Load()) {
+		// A TCPDown raised by an EARLIER generation (e.g. the second of a read-error / write-error
+		// pair) that was still queued when the next generation's TCP-up committed: that link is
+		// long gone, and the live generation must not be taken down by it.
 		return
 	}
 
@@ -405,6 +433,10 @@ func (s *supervisor) resolveCloseTimeout() time.Duration {
 // run() has returned (runDone closed), so a re-Close after stop() cannot deadlock on the
 // unread events channel. Drop coalescing applies only to notify, never to events (spec §5.3).
 func (s *supervisor) inject(ev fsmEvent) {
+	if ev == evDisconnect {
+		// a TCPDown belongs to the generation that is up when it is raised
+		ev |= evStamped | stampOf(s.gens.Load())<<evStampShift
+	}
 	select {
 	case s.events <- ev:
 	case <-s.runDone:
